@@ -10,6 +10,7 @@ VERIF="$(cd "$(dirname "$0")/.." && pwd)"
 W=/tmp/mut/$ID
 rm -rf "$W"; mkdir -p "$W/vdir" /tmp/mut/shared
 git -C /repo archive HEAD | tar -x -C "$W" --one-top-level=repo
+find "$W/repo" -name '*.rs' -exec touch {} +
 ( cd "$W/repo" && patch -p1 -s < "$PATCH" ) || { echo "$ID PATCH-FAILED"; rm -rf "$W"; exit 2; }
 ln -s "$VERIF/golden" "$W/vdir/golden"
 cp "$VERIF/known-findings.txt" "$W/vdir/known-findings.txt"
